@@ -60,6 +60,9 @@ class Real:
             # a callback of the event interrupts a process (whoever ran last; the callback is no process at all)
             self.events[k].callbacks.append(
                 lambda e, pname=pname, cause=cause: self.procs[pname].interrupt(cause) if pname in self.procs else None)
+        for (a, b) in self.prog.get('chains', ()):
+            # the documented way of passing an outcome on: another event's trigger() as a callback
+            self.events[a].callbacks.append(self.events[b].trigger)
         for spec in self.prog['procs']:
             self.procs[spec['name']] = env.process(self.gen(spec, spec['phase']))
 
@@ -189,6 +192,9 @@ class Real:
                     yield from wait(i, self.flags[s['i']])
                 elif k == 'coro':
                     yield from wait(i, self._coro(s['d'], s.get('v')))
+                elif k == 'coro_fail':
+                    # a yielded native coroutine that fails: the process gets the exception at the yield
+                    yield from wait(i, self._coro_fail(s['d'], s['x']))
                 else:
                     raise InvalidCase(k)
             elif op == 'setflag':
@@ -218,6 +224,11 @@ class Real:
     async def _coro(d, v):
         await (usim.time + d)
         return v
+
+    @staticmethod
+    async def _coro_fail(d, x):
+        await (usim.time + d)
+        raise SpyErr(x)
 
     async def watcher(self, k, hold=0):
         try:
@@ -312,6 +323,7 @@ class MEvent:
         self.handled = False
         self.reg_times = []       # dates at which waiters / conditions started to observe this event
         self.cb_int = []          # (process name, cause): callbacks that interrupt a process
+        self.chain = []           # events whose trigger() is a callback of this one
 
 
 class MCond(MEvent):
@@ -353,6 +365,8 @@ class Model:
             self.events[k].defuser = True
         for (k, pname, cause) in prog.get('cb_interrupts', ()):
             self.events[k].cb_int.append((pname, cause))
+        for (a, b) in prog.get('chains', ()):
+            self.events[a].chain.append(self.events[b])
         self.flags = [MEvent() for _ in range(prog.get('nflags', 0))]
         self.procs = {}
         self.cb = []
@@ -482,10 +496,10 @@ class Model:
             return
         p.idx = idx
         if isinstance(target, tuple):
-            _, d, v = target
+            d, v = target[1], target[2]
             p.waiting = 'timer'
             p.timer_due = self.now + d
-            self.push(self.now + d, ('resume', p, p.token, ('ok', v), idx, self.seq))
+            self.push(self.now + d, ('resume', p, p.token, ('fail' if len(target) > 3 else 'ok', v), idx, self.seq))
         else:
             p.waiting = target
             if target.state is not None:
@@ -570,6 +584,9 @@ class Model:
                     self.trigger(ev, ('ok', s.get('v')) if op == 'succeed' else ('fail', s['x']))
             elif op == 'spawn':
                 c = MProc(s['child'], p.phase)
+                # (a child that fails before its first yield: its parent began to wait in the activation that created it,
+                #  before the child could run at all - no same-step race)
+                c.result.own_child = bool(s['child'].get('noyield'))
                 self.procs[c.name] = c
                 self.push(self.now, ('start', c))
                 return self.block(p, i, c.result)
@@ -624,6 +641,8 @@ class Model:
                     return self.block(p, i, self.flags[s['i']])
                 if k == 'coro':
                     return self.block(p, i, ('timer', s['d'], s.get('v')))
+                if k == 'coro_fail':
+                    return self.block(p, i, ('timer', s['d'], s['x'], 'fail'))
                 raise InvalidCase(k)
             elif op == 'setflag':
                 f = self.flags[s['i']]
@@ -651,7 +670,7 @@ class Model:
         self.trigger(p.result, state)
 
     def trigger(self, ev, state, callbacks=True):
-        if state[0] == 'fail' and self.now in ev.reg_times and not isinstance(ev, MCond):
+        if state[0] == 'fail' and self.now in ev.reg_times and not isinstance(ev, MCond) and not getattr(ev, 'own_child', False):
             # somebody started to observe the event in the very time step in which it fails: whether that
             # observer counts as its handler depends on same-step order
             raise Ambiguous('an event fails in the time step in which it got an observer')
@@ -694,6 +713,11 @@ class Model:
                 if getattr(ev, 'triggered_by', None) == tgt.name:
                     self.push_ticks[(tgt.name, self.now, self.seq)] = ev.trigger_tick + 1
                 self.push(self.now, ('interrupt', tgt))
+        for b in ev.chain:
+            if b.state is not None:
+                raise InvalidCase('a chained event is triggered twice')
+            b.triggered_by, b.trigger_tick = None, getattr(self, 'tick', 0)
+            self.trigger(b, ev.state)       # inherits value or exception (its own observers have to handle the latter)
         if ev.defuser:
             ev.handled = True      # the callbacks run first, then the failure is looked at
         if ev.state[0] == 'fail' and not ev.handled and self.crash is None:
